@@ -437,7 +437,16 @@ fn exec(op: &str, args: &[Sexp]) -> Ans {
 			let Ok(rn) = c.map.remapper_b(i2, n2, &x) else { return Ans::out_of_domain() };
 			let Ok(sm) = main.get_specialized_methods() else { return Ans::out_of_domain() };
 			let Ok(sm) = sm.remap(&rc) else { return Ans::out_of_domain() };
-			let ps: Vec<(Ref3, Ref3)> = sm.bridge_to_specialized.iter().map(|(b, s)| (ref3_of(b), ref3_of(s))).collect();
+			let ps: Vec<(Ref3, Ref3)> = if op == "oracle-delegate-named" {
+				// the bridge pairs of the property TEXT (`own_pairs`: the harness' own bridge predicate over the request's jar), not
+				// the pairs the implementation selected (audit rule (ii), pattern C: both would derive from one wrong selection)
+				let inter = |b: &Ref3| -> Option<Ref3> {
+					rc.map_method_ref_obj(&MethodRefObj { class: ocn(&b.0), name: mn(&b.1), desc: md(&b.2) }).ok().map(|r| ref3_of(&r))
+				};
+				match own_pairs(&c.jar, &inter) { Some(ps) => ps, None => return Ans::out_of_domain() }
+			} else {
+				sm.bridge_to_specialized.iter().map(|(b, s)| (ref3_of(b), ref3_of(s))).collect()
+			};
 			let named_of = |b: &Ref3| -> Option<String> {
 				let r = MethodRefObj { class: ocn(&b.0), name: mn(&b.1), desc: md(&b.2) };
 				rn.map_method_ref_obj(&r).ok().map(|r| r.name.as_inner().to_string())
